@@ -164,6 +164,18 @@ let () =
          | _ -> let ((h, ud), ex) = coll_header !policy !st tn t k in
                 (ud <> None, ex, (match ud with None -> zi (-1) | Some _ -> ttl_of !policy h tn))) in
       Printf.printf "%s\tst=%d ex=%d ttl=%s\n" id (if stored then 1 else 0) (if ex then 1 else 0) (ttl_rel ttl tn)
+    | id :: "Q" :: now :: keys :: mems :: _ ->
+      (* multi-key / multi-member reads *)
+      let now = zi (int_of_string now) in
+      let ks = List.map bytes_of_hex (split_on ',' keys) and ms = List.map bytes_of_hex (split_on ',' mems) in
+      let ov = function None -> "~" | Some b -> hexb b in
+      let ex = dec_z (read_exists !policy !st now ks) in
+      let mg = String.concat "," (List.map ov (read_mget !policy !st now ks)) in
+      let per t f = String.concat "|" (List.map (fun k -> String.concat "," (List.map (fun m -> f (read_elem !policy !st now t k m)) ms)) ks) in
+      let hm = per TH (function Some (EB b) -> hexb b | Some _ -> "?" | None -> "~") in
+      let si = per TS (function Some _ -> "1" | None -> "0") in
+      let zs = per TZ (function Some (EI i) -> string_of_int (iz i) | Some _ -> "?" | None -> "~") in
+      Printf.printf "%s\texists=%s mget=%s hmget=%s sismember=%s zscore=%s\n" id ex mg hm si zs
     | id :: "X" :: _ -> Printf.printf "%s\t%s\n" id (dump ())
     | id :: "C" :: csec :: rest ->
       let csec = zi (int_of_string csec) in
